@@ -230,7 +230,8 @@ def run_annotate(ctx, path, raw, label):
         ctx.case(case, nontrivial=b_ > a, kind="join")
         try:
             out = clr.pixels(join=True)[a:b_]
-            got = [[int(i), chromnames.index(r.chrom1), int(r.start1), int(r.end1), chromnames.index(r.chrom2), int(r.start2), int(r.end2), int(r.count)]
+            cid = lambda x: chromnames.index(x) if x in chromnames else int(x)   # files without an enum header join the stored integer ids
+            got = [[int(i), cid(r.chrom1), int(r.start1), int(r.end1), cid(r.chrom2), int(r.start2), int(r.end2), int(r.count)]
                    for i, r in zip(out.index.tolist(), out.itertuples(index=False))]
         except Exception as e:
             ctx.fail(case, {"error": repr(e)}, None)
